@@ -18,7 +18,7 @@ KeepPathType == TRUE
 KeyRegime == "mock"      \* (the key-regime records carry the generator's predictions)
 CheckSrcHost == TRUE
 MaxDatagrams == 1
-CIAs == {}  CHosts == {}
+CIAs == {}  CHosts == {}  PathExts == {}  RespExts == {}
 Modes == {}  ULs == {}  L4s == {}  DPorts == {}  DHosts == {}  Fams == {}  PathSet == {}  Pls == {}
 ReqAuths == {}  RespMuts == {}
 VARIABLES mode, cauth, pc, req, authd, act, out, rm, resp, cres, cache, kinfo, nsent, hist
@@ -75,7 +75,7 @@ TNoStrayToEh == (l > 0 /\ R.k = "stray") => R.q.to # "ehD"
 \* -------------------------------------------------------------------- strict
 \* the abstract datagram of the record
 Base == [Blank EXCEPT !.ul = Q.ul, !.l4 = Q.l4, !.dh = Q.dh, !.sfam = Q.sfam, !.dfam = Q.dfam,
-                      !.sp = Q.sp, !.dp = Q.dp, !.path = Q.path, !.ptype = Q.path.kind, !.pl = R.pl0, !.pl0 = R.pl0]
+                      !.sp = Q.sp, !.dp = Q.dp, !.path = Q.path, !.ptype = Q.path.kind, !.pl = R.pl0, !.pl0 = R.pl0, !.ext = Q.ext]
 D == MkAuth(Base, R.ak, "client", "server")
 ObsAct == IF R.outs = << >> THEN "Drop"
           ELSE IF NtpRep(O(1)) THEN "ServeNtp"
@@ -99,7 +99,10 @@ SReply == Judged => \A i \in DOMAIN R.outs :
                          /\ O(i).sh = Q.sh /\ O(i).sp = Q.sp /\ O(i).tsopt
                          \* the authenticator travels along (the forwarder recomputes the UDP
                          \* checksum, so a MAC that failed only because of it verifies again)
-                         /\ (O(i).auth = "absent") = (Q.auth = "absent") /\ O(i).aspi = Q.aspi)
+                         \* -- unless a hop-by-hop header came first: then the extension headers are replaced
+                         /\ (O(i).auth = "absent") = (Q.auth = "absent" \/ Q.ext = "hbh")
+                         /\ O(i).aspi = (IF Q.ext = "hbh" THEN "-" ELSE Q.aspi))
+   /\ IsReply(O(i)) => O(i).ext = "e2e"
 \* the client: what came back, and its verdict
 RB == WithAuth([Blank EXCEPT !.path = Reverse(Q.path), !.ptype = Reverse(Q.path).kind, !.pl = "ntpResp"], "server", <<"k0">>)
 RM == CASE R.rm = "pass"  -> RB
